@@ -314,7 +314,11 @@ func (c *fileCtx) walkStmt(s ast.Stmt, loop *loopInfo, label string) {
 			}
 		}
 	case *ast.GoStmt:
-		c.fail(x.Pos(), "go statement (tasks started by the code under test are not simulated)")
+		// go f(x)  ->  simchan.Go(func() { f(x) })
+		c.usesCh = true
+		c.replace(x.Go, x.Go+2, "simchan.Go(func() {")
+		c.walkExpr(x.Call)
+		c.insert(x.Call.End(), " })")
 	case *ast.DeferStmt:
 		c.walkExpr(x.Call)
 	case *ast.ReturnStmt:
